@@ -70,13 +70,17 @@ Node World::obs() {
     return d;
 }
 
-std::string World::open_path() {
-    if (path_shape == 1 && path.compare(0, dir.size() + 1, dir + "/") == 0) { cnt.inc("open.relative_path"); return path.substr(dir.size() + 1); }       // relative to the working directory
-    if (path_shape == 2 && path.compare(0, dir.size() + 1, dir + "/") == 0) { cnt.inc("open.redundant_separators"); return dir + "//./" + path.substr(dir.size() + 1); }
-    if (!via_symlink) return path;
-    std::string l = dir + "/link to file.nix";
+std::string World::open_path() { return shaped(path); }
+
+// the name under which the program refers to file p (a file in the simulation directory): see path_shape / via_symlink
+std::string World::shaped(const std::string &p) {
+    bool inside = p.compare(0, dir.size() + 1, dir + "/") == 0;
+    if (path_shape == 1 && inside) { cnt.inc("open.relative_path"); return p.substr(dir.size() + 1); }       // relative to the working directory
+    if (path_shape == 2 && inside) { cnt.inc("open.redundant_separators"); return dir + "//./" + p.substr(dir.size() + 1); }
+    if (!via_symlink || !inside) return p;
+    std::string l = dir + "/link to " + p.substr(dir.size() + 1);
     syscall(SYS_unlink, l.c_str());
-    if (syscall(SYS_symlink, path.c_str(), l.c_str()) != 0) return path;
+    if (syscall(SYS_symlink, p.c_str(), l.c_str()) != 0) return p;
     cnt.inc("open.via_symlink");
     return l;
 }
